@@ -1895,6 +1895,38 @@ func ruleNestedUntainted(r *Run) {
 						return
 					}
 				}
+				// map arguments of the recursive call: the lists an inner block may range over are those of
+				// THIS item — a map that is filled inside the item loop must also be created inside it,
+				// otherwise entries of earlier items are still there when a later item lacks them
+				for ai, a := range c.Common().Args {
+					mk, isMk := a.(*ssa.MakeMap)
+					if !isMk {
+						continue
+					}
+					var loop *natLoop
+					for _, cand := range naturalLoops(g) {
+						if cand.Body[c.Block()] && (loop == nil || len(cand.Body) < len(loop.Body)) {
+							loop = cand
+						}
+					}
+					if loop == nil || loop.Body[mk.Block()] {
+						continue
+					}
+					filledInLoop := false
+					if mk.Referrers() != nil {
+						for _, u := range *mk.Referrers() {
+							if mu, ok := u.(*ssa.MapUpdate); ok && loop.Body[mu.Block()] {
+								filledInLoop = true
+							}
+						}
+					}
+					if !filledInLoop {
+						continue
+					}
+					n++
+					r.Check("nested-untainted", fmt.Sprintf("%s:arg%d:per-item-map", shortName(fn), ai), c.Pos(), false,
+						fmt.Sprintf("%s hands the nested expansion a map that is created once (at %s) and filled for every item of the loop without being emptied: an inner {{#each}} over a list the current item does not have is expanded over the list of an earlier item", shortName(fn), p.pos(mk.Pos())))
+				}
 				// string arguments of the recursive call
 				for ai, a := range c.Common().Args {
 					if !isStringType(a.Type()) {
